@@ -10,7 +10,8 @@ From Coq Require Import List Bool Arith NArith Lia Relations Permutation.
 Import ListNotations.
 From BB Require Import BN Brute SpaceFacts TrapFacts PercolateFacts AttractorFacts Diagram Invariants Checks Filter
   Strict PetriNet Control Meta FilterFacts PetriNetFacts TrappistFacts DiagramStruct DiagramSem1 DiagramCache
-  DiagramDepth DiagramComplete Termination ControlFacts MetaFacts Candidates StrictFacts MinExpandFacts CandidatesFacts SymbolicTest SymbolicTestFacts Signed ReductionFacts ControlFacts2 Main Blocks BlocksFacts ObsFacts OwnerFacts CandidatesTerm.
+  DiagramDepth DiagramComplete Termination ControlFacts MetaFacts Candidates StrictFacts MinExpandFacts CandidatesFacts SymbolicTest SymbolicTestFacts Signed ReductionFacts ControlFacts2 Main Blocks BlocksFacts ObsFacts OwnerFacts CandidatesTerm
+  PartialOwner BlockMath BlockComplete ASeeds ASeedsFacts LogChecks SkipRule SkipRuleFacts Names NamesFacts Perm PermFacts.
 
 Theorem C14_step_CacheOK : forall (fuel : nat) (N : net) (cfg : config) (d : sd) (o : op), SWF N d -> NoStubEdges d -> EdgeStrict d -> CacheOK d -> CacheOK (fst (step fuel N cfg d o)).
 Proof. exact step_CacheOK. Qed.
@@ -41,6 +42,9 @@ Proof. exact stale_not_CacheOK. Qed.
 Theorem C14_block_expansion_CacheOK : forall (fuel : nat) (N : net) (cfg : config) (d : sd) (maa opt : bool) (sz : option nat) (tape : list bool), SWF N d -> NoStubEdges d -> CacheOK d -> CacheOK (fst (expand_block fuel N cfg d maa opt sz tape)).
 Proof. exact expand_block_CacheOK. Qed.
 
+Theorem C14_aseeds_expansion_keeps_caches_valid : forall (fuel : nat) (N : net) (cfg : config) (d : sd) (sz : option nat) (min_tape : list space) (tape : list (list nat)), 1 <= max_motifs cfg -> SWF N d -> NoStubEdges d -> CacheOK d -> CacheOK (fst (expand_aseeds fuel N cfg d sz min_tape tape)).
+Proof. exact expand_aseeds_CacheOK. Qed.
+
 Print Assumptions C14_step_CacheOK.
 Print Assumptions C14_run_CacheOK.
 Print Assumptions C14_expand_one_CacheOK.
@@ -50,3 +54,4 @@ Print Assumptions C14_q_sets_CacheOK.
 Print Assumptions C14_reclaim_CacheOK.
 Print Assumptions C14_not_vacuous.
 Print Assumptions C14_block_expansion_CacheOK.
+Print Assumptions C14_aseeds_expansion_keeps_caches_valid.
